@@ -12,7 +12,7 @@ meta = {
     "origin": "written by an independent sub-agent that was given only the property text and a scratch worktree",
     "description_by_author": desc,
     "confirmed_by_me": "seeded_validate.sh: clean tree + patch -> existing 94 tests pass; + demo.rs in tests/ -> demo fails; clean tree + demo.rs -> demo passes",
-    "how_checks_were_run": "selftest.py seeded: patch applied to a scratch copy of /repo under /var/tmp, simulator rebuilt against it, every check's quick tier run; also applied to /repo itself with git apply / git checkout for the owning check",
+    "how_checks_were_run": "selftest.py seeded: the patch is applied to a scratch copy of /repo's working tree under /var/tmp, the simulator (git archive HEAD of /verif/sim) is rebuilt against that copy, and the quick tier of all seven checks is run; a reported replay file is then replayed against the pristine /repo and must pass there. Results are in caught_by.",
 }
 json.dump(meta, open(f"{d}/meta.json", "w"), indent=1)
 print("kept", d)
